@@ -364,6 +364,54 @@ func VerifC03_LimitAcrossRestart() {
 	sym.Reach("done")
 }
 
+// VerifC03_StalledConsumerAtShutdown: a consumer that has registered but takes
+// nothing and never finishes (stalled upstream client past every timeout):
+// four chunks of symbolic size fill the memory window and the queue, then
+// Destroy: it returns (after its timeout, virtual time) and every accepted
+// chunk is a complete file in the directory or counted as dropped - nothing
+// stays only in memory because a consumer is stuck.
+//
+//verif:native off
+//verif:solver cvc5-int
+//verif:preempt 0
+//verif:clock virtual
+//verif:reach done
+func VerifC03_StalledConsumerAtShutdown() {
+	defer verifScale()()
+	fs := fsmodel.Reset()
+	m := fakes.NewMetrics()
+	buf := newBufferer(logger.Root(), "/root", "id1", verifMatchFF, m, 1<<30, false).(*bufferer)
+	buf.Start()
+	buf.RegisterNewConsumer() // never reads, never calls OnFinished
+	k := 3 + sym.Choice("extraChunks", 2)
+	var datas [4][]byte
+	for i := 0; i < k; i++ {
+		datas[i] = sym.BigBytes("data", 1, 100)
+		buf.Accept(base.LogChunk{ID: verifIDs[i], Data: append([]byte{}, datas[i]...)})
+		sym.Yield()
+	}
+	buf.Destroy() // the feeder cannot finish (it waits for the consumer); Destroy gives up after its timeout
+	dropped := int(m.CounterValue("dropped_chunks_total", "hybridBuffer"))
+	files := 0
+	for i := 0; i < k; i++ {
+		if f, ok := fs.Files[verifIDs[i]]; ok {
+			files++
+			verifSameBytes(f, datas[i], "a chunk saved at shutdown is complete")
+		}
+	}
+	sym.Assert(files+dropped == k, "with a stalled consumer every accepted chunk is a file in the queue directory after shutdown or counted as dropped")
+	sym.Reach("done")
+}
+
+// VerifC18_StalledConsumerAtShutdown: the same run read for C18 (Destroy returns; no chunk is left only in memory).
+//
+//verif:native off
+//verif:solver cvc5-int
+//verif:preempt 0
+//verif:clock virtual
+//verif:reach done
+func VerifC18_StalledConsumerAtShutdown() { VerifC03_StalledConsumerAtShutdown() }
+
 // VerifC05_RecoveryOrder: restart recovery read as the ordering guarantee.
 //
 //verif:native off
